@@ -20,6 +20,7 @@ EXPLANATION = (
     "data set, never}; predicate A (CommandDataSetType != 0x0101) and predicate B (at least one "
     "data-set fragment is yielded) must coincide on every reachable point. Reachability of the "
     "points is itself a checked structural premise (who writes _dataset_path)."
+    ' Second session: when the announcement for one abstract point has more than one outcome (it depends on something outside the abstraction, e.g. a file size) the sender must agree with each outcome.'
 )
 
 
